@@ -335,7 +335,7 @@ class C11(Check):
             "without max_bytes, read_until_close) on a 55-byte stream and on two short streams (7 and 14 bytes, so that a read completes while the EOF is "
             "being processed); environment choices: size of the next "
             "segment in {rest, 1, 2, chunk-1, chunk, chunk+1}, 'segment arrives before the next read is "
-            "issued', EOF after the data; explored with deviation bound D from the default (everything at "
+            "issued', EOF after the data; explored with deviation bound D (quick 2; thorough 5 for programs of two reads, 4 for three reads, 3 with chunk 8) from the default (everything at "
             "once, read issued first) plus the byte-at-a-time schedule; read_chunk_size 4 (and 8 in thorough); "
             "state = one execution; non-trivial = executions with >= 1 short delivery")
     claim = ("Each execution runs the real IOStream on a level-triggered fake socket; every result is checked "
@@ -350,7 +350,7 @@ class C11(Check):
         # (max program length, deviation bound, chunk)
         if tier == "quick":
             return [(2, 2, 4)]
-        return [(2, 3, 4), (3, 2, 4), (2, 2, 8)]
+        return [(2, 5, 4), (3, 4, 4), (2, 3, 8)]
 
     def partitions(self, tier):
         parts = []
